@@ -7,6 +7,8 @@ Level 2: segment_if.is_valid -- differential on the element-error multiset with/
 Level 3: the same call against the REAL error handler (an open ISA/GS/ST with the segment added): every element and
 segment error that validation reported (level 2's recording handler) must be found in the error tree under the
 segment -- in particular the note's own error when its first element carries an error of its own.
+Level 4: for a violated note that tree is closed and rendered by the real 997 and 999 visitors: an AK4 / IK4 line with
+the note's code (10 for E, 2 otherwise) must be written.
 """
 import itertools, collections
 from mc import core, grammar as G
@@ -81,7 +83,7 @@ def run_case(node, gseg, text, L, present, fill, level, compvar=0):
                         'is_syntax_valid(%s, %s) = %r but the definition says violated=%r (present=%s, len=%d)' % (seg.format(), text, ok, exp, present, L)))
         return out
     if level == 3:
-        return level3(node, seg, text, kind)
+        return level3(node, seg, text, kind, exp)
     # level 2: differential through segment_if.is_valid
     saved = node.syntax
     try:
@@ -132,7 +134,25 @@ class FakeSrc(object):
     def get_ls_id(self): return None
 
 
-def real_tree_codes(node, seg):
+def ack_lines(errh, src):
+    """close the open set / group / interchange of a real err_handler and render it with the real 997 and 999 visitors
+    -> {'997': [[seg id, e1, ...], ...], '999': [...]}"""
+    import io as _io
+    import pyx12.segment, pyx12.error_997, pyx12.error_999
+    from mc import ref
+    S = lambda t: pyx12.segment.Segment(t, '~', '*', ':')
+    errh.close_st_loop(None, S('SE*3*0001~'), src)
+    errh.close_gs_loop(None, S('GE*1*1~'), src)
+    errh.close_isa_loop(None, S('IEA*1*000000001~'), src)
+    out = {}
+    for name, cls in (('997', pyx12.error_997.error_997_visitor), ('999', pyx12.error_999.error_999_visitor)):
+        fd = _io.StringIO()
+        errh.accept(cls(fd, ('~', '*', ':', '\n')))
+        out[name] = [p.strip().split('*') for p in fd.getvalue().split('~') if p.strip()]
+    return out
+
+
+def real_tree_codes(node, seg, want_ack=False):
     """validate seg with node against a real err_handler -> (verdict, Counter of ('ele'|'seg', code))"""
     import pyx12.error_handler, pyx12.segment
     from mc import ref
@@ -153,10 +173,12 @@ def real_tree_codes(node, seg):
         for en in sn.elements:
             for e in en.errors:
                 got[('ele', e[0])] += 1
+    if want_ack:
+        return v, got, ack_lines(errh, src)
     return v, got
 
 
-def level3(node, seg, text, kind):
+def level3(node, seg, text, kind, exp=False, first=None):
     from mc import impl
     e1 = impl.errh_list()
     try:
@@ -164,8 +186,12 @@ def level3(node, seg, text, kind):
     except Exception as e:
         return []          # level 2 reports it
     want = collections.Counter([('ele', c) for (c, m, v, r) in e1.err_ele] + [('seg', x[0]) for x in e1.err_seg])
+    acks = None
     try:
-        v3, got = real_tree_codes(node, seg)
+        if exp:
+            v3, got, acks = real_tree_codes(node, seg, True)
+        else:
+            v3, got = real_tree_codes(node, seg)
     except Exception as e:
         return [('C14|L3|raises %s@%s' % (type(e).__name__, core.where(e)), 'is_valid(%s) against the real error handler raised %r' % (seg.format(), e))]
     out = []
@@ -177,6 +203,14 @@ def level3(node, seg, text, kind):
         code = '10' if kind == 'E' else '2'
         what = 'note error lost' if ('ele', code) in lost else ('errors lost' if lost else 'errors added')
         out.append(('C14|L3|%s|%s' % (kind, what), '%s (note %s): validation reported %r, the error tree under the segment holds %r' % (seg.format(), text, dict(want), dict(got))))
+    if acks and not out:
+        # level 4: the violated note's own error reaches both acknowledgements as an AK4 / IK4 line with its code
+        code = '10' if kind == 'E' else '2'
+        for name, lines in sorted(acks.items()):
+            tag = 'AK4' if name == '997' else 'IK4'
+            if not any(l[0] == tag and len(l) > 3 and l[3] == code for l in lines):
+                out.append(('C14|L4|%s|note error not in the %s' % (kind, name), '%s violates %s: no %s line with code %s; element lines written: %r'
+                            % (seg.format(), text, tag, code, ['*'.join(l) for l in lines if l[0] in ('AK3', 'AK4', 'IK3', 'IK4')])))
     return out
 
 
